@@ -12,13 +12,14 @@ from ..ctx import stable_hash
 
 ID = "C13"
 LEVEL = "exploration"
-TIERS = {"quick": {"shards": 16, "budget_s": 30, "runs": 110, "line_runs": 10},
-         "thorough": {"shards": 16, "budget_s": 480, "runs": 9000, "line_runs": 600}}
+TIERS = {"quick": {"shards": 16, "budget_s": 30, "runs": 100, "line_runs": 10, "systematic_pipelines": 2, "systematic_deviations": 1},
+         "thorough": {"shards": 16, "budget_s": 480, "runs": 9000, "line_runs": 600, "systematic_pipelines": 6, "systematic_deviations": 2}}
 RULE = ("Pipelines as the command line builds them - reader wrapped by the real StreamSaverWorker (its own writer thread), "
         "TokenizerWorker, AudioEventsJoinerWorker and RegionSaverWorker observers - run under the deterministic scheduler of C12 "
         "(strategies that make the writer lag or run ahead, timeout firings, line-level pre-emption), with cache sizes {1 byte, "
         "< block, = block, k blocks, > stream, 0}, empty and event-free streams, silence 0 / sub-sample / several windows, "
-        "templates with format specs.  Oracle on files read back with stdlib wave/open: blocks produced by the wrapped reader "
+        "templates with format specs; sources with short reads; runs that are stopped; systematic core: every schedule with <= k "
+        "deviations (k=1 quick, k=2 thorough) for tiny saver pipelines.  Oracle on files read back with stdlib wave/open: blocks produced by the wrapped reader "
         "(inner log) == blocks the tokenizer saw (outer proxy log); saved wav frames == concatenation of those blocks and header "
         "== source rate/width/channels; joiner file == split_and_join_with_silence() == events joined by round(silence*rate) zero "
         "samples (nothing before the first / after the last; empty when no event); one region file per detection, named "
@@ -205,6 +206,39 @@ def one(ctx, case, tmpdir):
                     "max_queue_depth": s.max_queue_depth, "timeouts_fired": s.timeouts_fired})
 
 
+def systematic(ctx, conf, tmpdir):
+    from ..sched import systematic as SY
+
+    rng = ctx.rng("systematic")
+    shapes = [["joiner"], ["regionsaver"], ["rec"], []]
+    for n in range(conf["systematic_pipelines"]):
+        observers = shapes[(ctx.shard + n) % len(shapes)]
+        case = P.small_pipeline_case(rng, rng.choice((3, 4, 5)), observers, True)
+        built = AC.build_audio(case)
+        if built is None:
+            continue
+        data, _ = built
+        expected = P.split_reference(data, case)
+
+        def run_fn(strat):
+            P.clean_dir(tmpdir)
+            return P.run_pipeline(case, data, tmpdir, strategy=strat)
+
+        ok = True
+        for devs, strat, res in SY.enumerate_schedules(run_fn, conf["systematic_deviations"], ctx.out_of_time):
+            s = res.sched
+            ctx.case(stable_hash(["sys", case["v"], observers, case["saver"], s.decisions]), bool(data))
+            ctx.count("systematic_schedules")
+            ctx.count("steps", s.steps)
+            ctx.count("timeouts_fired", s.timeouts_fired)
+            ctx.maxi("queue_depth", s.max_queue_depth)
+            if not check_run(ctx, dict(case, deviations={str(k): v for k, v in devs.items()}), data, res, expected, tmpdir):
+                ok = False
+                break
+        if ok and SY.enumerate_schedules.last_complete:
+            ctx.count("systematic_pipelines_fully_enumerated")
+
+
 def run_shard(ctx):
     conf = TIERS[ctx.tier]
     tmpdir = tempfile.mkdtemp(prefix="vf-c13-")
@@ -215,6 +249,7 @@ def run_shard(ctx):
             one(ctx, case, tmpdir)
             if ctx.out_of_time():
                 break
+        systematic(ctx, conf, tmpdir)
         rng = ctx.rng("lines")
         for i in range(conf["line_runs"]):
             case = shape_case(rng, P.random_pipeline_case(rng, max_windows=16, want_saver=True, line_mode=True))
@@ -237,7 +272,7 @@ def inconclusive(merged, tier):
     c = merged["counters"]
     need = ["scheduled_runs", "saver_runs", "blocks_checked", "joiner_files_checked", "joiner_files_with_zero_events",
             "region_dirs_checked", "region_files_checked", "runs_on_empty_stream", "runs_on_event_free_stream", "runs_with_a_stop", "runs_with_short_reads",
-            "line_mode_runs", "timeouts_fired"]
+            "line_mode_runs", "timeouts_fired", "systematic_schedules", "systematic_pipelines_fully_enumerated"]
     out = [f"monitor never observed {k}" for k in need if c.get(k, 0) == 0]
     if c.get("max:queue_depth", 0) < 3:
         out.append("the writer never lagged (max queue depth < 3)")
